@@ -14,6 +14,7 @@ Operations
     ["disc", index]                       line.disconnect()
     ["readd", index, how[, edit]]         gfa.rm(line) | line.disconnect(), [E line: beg/end set to new intervals], then
                                           gfa.add_line(the same object)
+    ["item", index, how, arg, as_line]    group.add_item/rm_item/append_item/prepend_item/rm_first_item/rm_last_item
     ["rename", index, new]                line.name = new
     ["set_tag", index, name, type, val]   line.set_datatype + line.set (val None = delete)
 """
@@ -305,6 +306,48 @@ def continue_group(st, r):
     return line
 
 
+def item_edit(st, r):
+    """An edit of the item list of a U/O group through the item-editing methods."""
+    groups = [i for i, x in enumerate(st.model.recs) if x.rt in ("O", "U")]
+    if not groups:
+        return None
+    i = gen.choice(r, groups)
+    g = st.model.recs[i]
+    items = g.pos[1].split(" ")
+    if gen.chance(r, 0.45) and len(items) >= 2:
+        if g.rt == "O":
+            how = gen.choice(r, ["rm_first_item", "rm_last_item"])
+            rest = items[1:] if how == "rm_first_item" else items[:-1]
+            arg = None
+        else:
+            arg = gen.choice(r, items)
+            k = items.index(arg)
+            rest = items[:k] + items[k + 1:]
+            how = "rm_item"
+        names = [x[:-1] if g.rt == "O" else x for x in rest]
+        if all(n in POOL["G"] or (st.model.by_name(n) is not None and st.model.by_name(n).rt == "G") for n in names):
+            return None  # never a group of gaps only
+        g.pos[1] = " ".join(rest)
+        return ["item", i, how, arg, False]
+    line = new_group(st, r, g.rt, pid=g.pos[0] if g.pos[0] != "*" else None)
+    if line is None or (g.pos[0] == "*" and line[1][0] != "*"):
+        # (new_group may have drawn a name for an unnamed group: only its items are used)
+        if line is None:
+            return None
+    new = line[1][1].split(" ")[0]
+    nm = new[:-1] if g.rt == "O" else new
+    if nm == g.pos[0]:
+        return None
+    if g.rt == "O":
+        how = gen.choice(r, ["append_item", "prepend_item"])
+        g.pos[1] = " ".join(items + [new]) if how == "append_item" else " ".join([new] + items)
+    else:
+        how = "add_item"
+        g.pos[1] = " ".join(items + [new])
+    defined = st.model.by_name(nm) is not None
+    return ["item", i, how, new, defined and gen.chance(r, 0.4)]
+
+
 def duplicate_record(st, r):
     """A textual copy of an existing record of a kind that may legally occur twice
     (containments, unnamed edges and gaps, fragments): identical dependants."""
@@ -439,6 +482,11 @@ def gen_history(r, version, opts=None):
                 rec.pos[3:7] = [op[3]["beg1"], op[3]["end1"], op[3]["beg2"], op[3]["end2"]]
             st.model.add(rec)
             continue
+        if o.get("p_item") and version == "gfa2" and gen.fair(r, o["p_item"]):
+            op = item_edit(st, r)
+            if op is not None:
+                ops.append(op)
+                continue
         if x < o["p_rm"] and rem:
             i = gen.choice(r, rem)
             if gen.chance(r, 0.4):
@@ -665,6 +713,26 @@ class Runner:
                 rec.pos[3:7] = [op[3]["beg1"], op[3]["end1"], op[3]["beg2"], op[3]["end2"]]
             self.gfa.add_line(line)
             self.model.add(rec)
+        elif kind == "item":
+            rec = self.model.recs[op[1]]
+            line = self.find_line(rec)
+            if line is None:
+                raise LookupError("model record %r has no line in the Gfa" % rec.text())
+            _k, _i, how, arg, as_line = op
+            items = rec.pos[1].split(" ")
+            if how in ("rm_first_item", "rm_last_item"):
+                getattr(line, how)()
+                rec.pos[1] = " ".join(items[1:] if how == "rm_first_item" else items[:-1])
+            elif how == "rm_item":
+                line.rm_item(self.gfa.line(arg) if as_line else arg)
+                k = items.index(arg)
+                rec.pos[1] = " ".join(items[:k] + items[k + 1:])
+            else:
+                a = arg
+                if as_line:
+                    a = gfapy.OrientedLine(self.gfa.line(arg[:-1]), arg[-1]) if rec.rt == "O" else self.gfa.line(arg)
+                getattr(line, how)(a)
+                rec.pos[1] = " ".join([arg] + items) if how == "prepend_item" else " ".join(items + [arg])
         elif kind == "rename":
             rec = self.model.recs[op[1]]
             line = self.find_line(rec)
